@@ -109,6 +109,9 @@ fn cfg_node(out: &mut Vec<String>, attrs: &[syn::Attribute], span: (usize, usize
 
 #[derive(Default)]
 struct Inner {
+    let_loops: Vec<String>,
+    value_breaks: Vec<String>,
+    loop_stack: Vec<(usize, usize)>,
     nested_items: Vec<(usize, usize)>,
     cfg_nodes: Vec<String>,
     loops: Vec<String>,
@@ -135,6 +138,15 @@ impl<'ast> Visit<'ast> for Inner {
         visit::visit_arm(self, a);
     }
     fn visit_local(&mut self, l: &'ast syn::Local) {
+        if let Some(init) = &l.init {
+            if let syn::Expr::Loop(lp) = &*init.expr {
+                let name = { let p = &l.pat; compact(quote::quote!(#p)) };
+                self.let_loops.push(format!(
+                    "{{\"stmt\":{},\"pat\":{},\"name\":{},\"loop\":{}}}",
+                    sp(br(l.span())), sp(br(l.pat.span())), js(&name), sp(br(lp.span()))
+                ));
+            }
+        }
         cfg_node(&mut self.cfg_nodes, &l.attrs, br(l.span()));
         visit::visit_local(self, l);
     }
@@ -167,7 +179,18 @@ impl<'ast> Visit<'ast> for Inner {
             sp(br(l.span())),
             sp(br(l.body.span()))
         ));
+        self.loop_stack.push(br(l.span()));
         visit::visit_expr_loop(self, l);
+        self.loop_stack.pop();
+    }
+    fn visit_expr_break(&mut self, b: &'ast syn::ExprBreak) {
+        if let (Some(e), Some(lp)) = (&b.expr, self.loop_stack.last()) {
+            self.value_breaks.push(format!(
+                "{{\"span\":{},\"value\":{},\"loop\":{}}}",
+                sp(br(b.span())), sp(br(e.span())), sp(*lp)
+            ));
+        }
+        visit::visit_expr_break(self, b);
     }
     fn visit_expr_while(&mut self, l: &'ast syn::ExprWhile) {
         self.loops.push(format!(
@@ -176,7 +199,9 @@ impl<'ast> Visit<'ast> for Inner {
             sp(br(l.cond.span())),
             sp(br(l.body.span()))
         ));
+        self.loop_stack.push(br(l.span()));
         visit::visit_expr_while(self, l);
+        self.loop_stack.pop();
     }
     fn visit_expr_for_loop(&mut self, l: &'ast syn::ExprForLoop) {
         self.loops.push(format!(
@@ -186,7 +211,9 @@ impl<'ast> Visit<'ast> for Inner {
             sp(br(l.expr.span())),
             sp(br(l.body.span()))
         ));
+        self.loop_stack.push(br(l.span()));
         visit::visit_expr_for_loop(self, l);
+        self.loop_stack.pop();
     }
     fn visit_expr_try(&mut self, t: &'ast syn::ExprTry) {
         self.tries.push(format!(
@@ -449,7 +476,7 @@ impl Top {
             })
             .collect();
         let s = format!(
-            "{{\"kind\":\"fn\",\"path\":{},\"span\":{},\"attrs\":[{}],\"vis\":{},\"sig\":{},\"ret\":{},\"where\":{},\"body\":{},\"tail\":{},\"trait_impl\":{},\"trait_def\":{},\"is_async\":{},\"params\":[{}],\"loops\":[{}],\"tries\":[{}],\"macros\":[{}],\"returns\":[{}],\"instruments\":[{}],\"closures\":[{}],\"awaits\":[{}],\"cfg\":[{}],\"cfg_nodes\":[{}],\"leaf_tails\":[{}],\"nested_items\":[{}]}}",
+            "{{\"kind\":\"fn\",\"path\":{},\"span\":{},\"attrs\":[{}],\"vis\":{},\"sig\":{},\"ret\":{},\"where\":{},\"body\":{},\"tail\":{},\"trait_impl\":{},\"trait_def\":{},\"is_async\":{},\"params\":[{}],\"loops\":[{}],\"tries\":[{}],\"macros\":[{}],\"returns\":[{}],\"instruments\":[{}],\"closures\":[{}],\"awaits\":[{}],\"cfg\":[{}],\"cfg_nodes\":[{}],\"leaf_tails\":[{}],\"nested_items\":[{}],\"let_loops\":[{}],\"value_breaks\":[{}]}}",
             js(&path),
             sp(br(whole)),
             all_attrs.iter().map(|a| sp(*a)).collect::<Vec<_>>().join(","),
@@ -473,7 +500,9 @@ impl Top {
             cfg_strs(attrs).iter().map(|d| js(d)).collect::<Vec<_>>().join(","),
             inner.cfg_nodes.join(","),
             leaves.iter().map(|a| sp(*a)).collect::<Vec<_>>().join(","),
-            inner.nested_items.iter().map(|a| sp(*a)).collect::<Vec<_>>().join(",")
+            inner.nested_items.iter().map(|a| sp(*a)).collect::<Vec<_>>().join(","),
+            inner.let_loops.join(","),
+            inner.value_breaks.join(",")
         );
         self.out.push(s);
         for f in nested_fns {
